@@ -192,6 +192,43 @@ theorem OptRel.elim2 {α β : Type} {R : α → β → Prop} {x : Option α} {y 
   · exact False.elim h
   · exact Or.inr ⟨_, _, rfl, rfl, h⟩
 
+/-! ## the typing test of `save` gives the same answer on both sides -/
+
+theorem strOf_isSome_iso {h h' : Heap}
+    (step : ∀ a a', f a = some a' → ∃ o o', h[a]? = some o ∧ h'[a']? = some o' ∧ ObjRel f o o')
+    {m m' : Val} (hv : ValRel f m m') : (strOf h m).isSome = (strOf h' m').isSome := by
+  cases m with
+  | ref b =>
+    obtain ⟨b', rfl, hf⟩ := valRel_ref_left hv
+    obtain ⟨o, o', ho, ho', hrel⟩ := step b b' hf
+    simp only [strOf, ho, ho']
+    cases o <;> cases o' <;> simp only [ObjRel] at hrel <;> first | exact hrel.elim | rfl
+  | _ => cases m' <;> simp [ValRel] at hv <;> rfl
+
+theorem clsName_isSome_iso {h h' : Heap}
+    (step : ∀ a a', f a = some a' → ∃ o o', h[a]? = some o ∧ h'[a']? = some o' ∧ ObjRel f o o')
+    {c c' : Val} (hv : ValRel f c c') : (clsName h c).isSome = (clsName h' c').isSome := by
+  cases c with
+  | ref b =>
+    obtain ⟨b', rfl, hf⟩ := valRel_ref_left hv
+    obtain ⟨o, o', ho, ho', hrel⟩ := step b b' hf
+    simp only [clsName, ho, ho']
+    cases o <;> cases o' <;> simp only [ObjRel] at hrel <;> (try exact hrel.elim) <;> (try rfl)
+    rename_i m q m' q'
+    have e1 := strOf_isSome_iso step hrel.1
+    have e2 := strOf_isSome_iso step hrel.2
+    cases h1 : strOf h m <;> cases h2 : strOf h q <;> cases h3 : strOf h' m' <;> cases h4 : strOf h' q' <;>
+      simp_all
+  | _ => cases c' <;> simp [ValRel] at hv <;> rfl
+
+theorem cellOK_iso {h h' : Heap}
+    (step : ∀ a a', f a = some a' → ∃ o o', h[a]? = some o ∧ h'[a']? = some o' ∧ ObjRel f o o')
+    {o o' : Obj} (hrel : ObjRel f o o') : cellOK h o = cellOK h' o' := by
+  cases o <;> cases o' <;> simp only [ObjRel] at hrel <;> (try exact hrel.elim) <;> simp only [cellOK]
+  · rw [strOf_isSome_iso step hrel.1, strOf_isSome_iso step hrel.2]
+  · rw [clsName_isSome_iso step hrel.1]
+  · rw [clsName_isSome_iso step hrel.1]
+
 theorem save_ref_sim {h h' : Heap}
     (inj : ∀ a b c, f a = some c → f b = some c → a = b)
     (step : ∀ a a', f a = some a' → ∃ o o', h[a]? = some o ∧ h'[a']? = some o' ∧ ObjRel f o o')
@@ -270,28 +307,40 @@ theorem save_ref_sim {h h' : Heap}
         | some i => exact (h1.emit _).emit _
         | none => exact (h1.emit _).memoize inj hf ha ha'
     · -- global
-      rcases (ih _ _ st st' hrel.1 hst).elim2 with ⟨hx, hy⟩ | ⟨x, y, hx, hy, h1⟩
-      · simp only [hx, hy]; trivial
-      · simp only [hx, hy]
-        rcases (ih _ _ x y hrel.2 h1).elim2 with ⟨hx2, hy2⟩ | ⟨x2, y2, hx2, hy2, h2⟩
-        · simp only [hx2, hy2]; trivial
-        · simp only [hx2, hy2]
-          exact (h2.emit _).memoize inj hf ha ha'
+      rename_i m q m' q'
+      rw [cellOK_iso (h := h) (h' := h') step (o := .global m q) (o' := .global m' q') hrel]
+      split
+      · rcases (ih _ _ st st' hrel.1 hst).elim2 with ⟨hx, hy⟩ | ⟨x, y, hx, hy, h1⟩
+        · simp only [hx, hy]; trivial
+        · simp only [hx, hy]
+          rcases (ih _ _ x y hrel.2 h1).elim2 with ⟨hx2, hy2⟩ | ⟨x2, y2, hx2, hy2, h2⟩
+          · simp only [hx2, hy2]; trivial
+          · simp only [hx2, hy2]
+            exact (h2.emit _).memoize inj hf ha ha'
+      · trivial
     · -- inst
-      rcases (ih _ _ st st' hrel.1 hst).elim2 with ⟨hx, hy⟩ | ⟨x, y, hx, hy, h1⟩
-      · simp only [hx, hy]; trivial
-      · simp only [hx, hy]
-        exact state_sim ih hrel.2 (((h1.emit _).emit _).memoize inj hf ha ha')
+      rename_i c s c' s'
+      rw [cellOK_iso (h := h) (h' := h') step (o := .inst c s) (o' := .inst c' s') hrel]
+      split
+      · rcases (ih _ _ st st' hrel.1 hst).elim2 with ⟨hx, hy⟩ | ⟨x, y, hx, hy, h1⟩
+        · simp only [hx, hy]; trivial
+        · simp only [hx, hy]
+          exact state_sim ih hrel.2 (((h1.emit _).emit _).memoize inj hf ha ha')
+      · trivial
     · -- reduced
-      rcases (ih _ _ st st' hrel.1 hst).elim2 with ⟨hx, hy⟩ | ⟨x, y, hx, hy, h1⟩
-      · simp only [hx, hy]; trivial
-      · simp only [hx, hy]
-        rcases (saveItems_sim (fun p q st st' hp hss => pair_sim ih p q st st' hp hss) .setitem .setitems .iter
-          hrel.2.1 0 _ _ (((h1.emit (.tupleN 0)).emit .reduce).memoize inj hf ha ha')).elim2 with
-          ⟨hx2, hy2⟩ | ⟨x2, y2, hx2, hy2, h2⟩
-        · simp only [hx2, hy2]; trivial
-        · simp only [hx2, hy2]
-          exact state_sim ih hrel.2.2 h2
+      rename_i c kvs s c' kvs' s'
+      rw [cellOK_iso (h := h) (h' := h') step (o := .reduced c kvs s) (o' := .reduced c' kvs' s') hrel]
+      split
+      · rcases (ih _ _ st st' hrel.1 hst).elim2 with ⟨hx, hy⟩ | ⟨x, y, hx, hy, h1⟩
+        · simp only [hx, hy]; trivial
+        · simp only [hx, hy]
+          rcases (saveItems_sim (fun p q st st' hp hss => pair_sim ih p q st st' hp hss) .setitem .setitems .iter
+            hrel.2.1 0 _ _ (((h1.emit (.tupleN 0)).emit .reduce).memoize inj hf ha ha')).elim2 with
+            ⟨hx2, hy2⟩ | ⟨x2, y2, hx2, hy2, h2⟩
+          · simp only [hx2, hy2]; trivial
+          · simp only [hx2, hy2]
+            exact state_sim ih hrel.2.2 h2
+      · trivial
 
 /-- **simulation**: two runs of the pickler on isomorphic rooted heaps, started in related states, stay
 related — same op-codes, same memo indices for corresponding addresses (every fuel) -/
